@@ -1,5 +1,6 @@
 mod chains;
 mod construct;
+mod grow;
 mod iter;
 mod layoutops;
 mod overlap;
@@ -12,9 +13,10 @@ fn main() {
         "overlap" => overlap::main_overlap(),
         "construct" => construct::main_construct(),
         "chains" => chains::main_chains(),
+        "grow" => grow::main_grow(),
         "layout" => layoutops::main_layout(),
         _ => {
-            eprintln!("usage: vh-tensor <iter|overlap|construct|chains|layout> [options]");
+            eprintln!("usage: vh-tensor <iter|overlap|construct|chains|grow|layout> [options]");
             std::process::exit(2);
         }
     }
